@@ -30,6 +30,13 @@ type exception *Struct
 
 type union *Struct
 
+// parsedEnumValue is an enum value as written: explicit is false when no
+// "= N" was given, so that the enum assigns the number.
+type parsedEnumValue struct {
+	value    *EnumValue
+	explicit bool
+}
+
 func newScopePrefix(prefix string) (*ScopePrefix, error) {
 	variables := []string{}
 	for _, variable := range prefixVariable.FindAllString(prefix, -1) {
@@ -3159,19 +3166,17 @@ func (c *current) onEnum1(name, values, annotations interface{}) (interface{}, e
 		Values:      make([]*EnumValue, len(vs)),
 		Annotations: toAnnotations(annotations),
 	}
-	// Assigns numbers in order. This will behave badly if some values are
-	// defined and other are not, but I think that's ok since that's a silly
-	// thing to do.
+	// Assigns numbers the way Thrift does: an explicit value is taken as
+	// written (it may be negative or smaller than an earlier one), an omitted
+	// one is the previous value plus one, starting at 0.
 	next := 0
 	for idx, v := range vs {
-		ev := v.([]interface{})[0].(*EnumValue)
-		if ev.Value < 0 {
-			ev.Value = next
+		pv := v.([]interface{})[0].(*parsedEnumValue)
+		if !pv.explicit {
+			pv.value.Value = next
 		}
-		if ev.Value >= next {
-			next = ev.Value + 1
-		}
-		en.Values[idx] = ev
+		next = pv.value.Value + 1
+		en.Values[idx] = pv.value
 	}
 	return en, nil
 }
@@ -3185,7 +3190,6 @@ func (p *parser) callonEnum1() (interface{}, error) {
 func (c *current) onEnumValue1(docstr, name, value, annotations interface{}) (interface{}, error) {
 	ev := &EnumValue{
 		Name:        string(name.(Identifier)),
-		Value:       -1,
 		Annotations: toAnnotations(annotations),
 	}
 	if docstr != nil {
@@ -3195,7 +3199,7 @@ func (c *current) onEnumValue1(docstr, name, value, annotations interface{}) (in
 	if value != nil {
 		ev.Value = int(value.([]interface{})[2].(int64))
 	}
-	return ev, nil
+	return &parsedEnumValue{value: ev, explicit: value != nil}, nil
 }
 
 func (p *parser) callonEnumValue1() (interface{}, error) {
